@@ -123,14 +123,17 @@ Definition new_part (thr : Z) (ns : list note) (cs : list ctrl) : part :=
 
 (* ---- note_array rows and from_note_array *)
 Record narow := mkRow { r_pitch : Z; r_vel : Z; r_on : Q; r_dur : Q; r_on_tick : Z; r_dur_tick : Z }.
+(* one row: onset, duration up to the sounding end, onset tick, tick(note_off) - tick(note_on) *)
+Definition na_row (ppq mpq : Z) (x : note * Q) : narow :=
+  let n := fst x in
+  mkRow (n_pitch n) (n_vel n) (n_on n) (snd x - n_on n)
+        (sec_to_tick ppq mpq (n_on n))
+        (sec_to_tick ppq mpq (n_off n) - sec_to_tick ppq mpq (n_on n))%Z.
 Definition note_array (ppq mpq : Z) (p : part) : list narow :=
-  map (fun x => let n := fst x in
-         mkRow (n_pitch n) (n_vel n) (n_on n) (snd x - n_on n)
-               (sec_to_tick ppq mpq (n_on n))
-               (sec_to_tick ppq mpq (n_off n) - sec_to_tick ppq mpq (n_on n))%Z)
-      (combine (p_notes p) (p_so p)).
+  map (na_row ppq mpq) (combine (p_notes p) (p_so p)).
+Definition note_of_row (r : narow) : note := mkNote (r_pitch r) (r_vel r) (r_on r) (r_on r + r_dur r).
 Definition from_note_array (rows : list narow) : part :=
-  new_part 64 (map (fun r => mkNote (r_pitch r) (r_vel r) (r_on r) (r_on r + r_dur r)) rows) [].
+  new_part 64 (map note_of_row rows) [].
 
 (* ---- Performance.sanitize_track_numbers: (part index, track) pairs -> new track numbers.
    The code enumerates list(set(pairs)) (arbitrary order); the model numbers the distinct
